@@ -1242,7 +1242,8 @@ def check_C11(ctx):
         fin = [x for x in fin if x]
         bm = [l for l in got if l.startswith("bestmove")][-1].split()[1]
         reported = fin[-1]["depth"] if fin else None
-        parsed.append((fen, mode, point, completed, reported, bm, got))
+        hook_fired = any(l.startswith(("info string vhold", "info string vexpire")) for l in got)
+        parsed.append((fen, mode, point, completed, reported, bm, got, hook_fired))
         need[(fen, completed)] = None
         # an interruption placed after root move k < n-1 of iteration d leaves that iteration incomplete
         if mode in ("stop", "expire") and str(point).startswith("rootmove"):
@@ -1259,12 +1260,14 @@ def check_C11(ctx):
     fres = parallel_map(lambda k_: fresh_depth_result(k_[0], k_[1]), keys, workers=min(8, infra.NCPU))
     for k_, r in zip(keys, fres):
         need[k_] = r
-    for fen, mode, point, completed, reported, bm, got in parsed:
+    for fen, mode, point, completed, reported, bm, got, hook_fired in parsed:
         ref = need[(fen, completed)]
         lines = [f"position {fen}", f"interrupt mode={mode} point={point}"]
         if mode != "wall":
             d = int(point.split(":")[1])
-            if point.startswith("rootmove") and completed < d - 1:
+            # only when the interruption point was actually reached: a search that ends by itself before iteration d
+            # (forced mate found, single legal move) never gets there and rightly keeps its last iteration
+            if hook_fired and point.startswith("rootmove") and completed < d - 1:
                 ctx.violation(f"int-lost:{fen}:{mode}:{point}", {"kind": "schedule", "lines": lines, "what": f"interrupted in iteration {d} but only iteration {completed} was kept"})
         if reported != completed:
             ctx.violation(f"int-depth:{fen}:{mode}:{point}", {"kind": "schedule", "lines": lines, "what": f"final info reports depth {reported}, deepest completed iteration printed is {completed}", "output": got[-4:]})
@@ -3229,6 +3232,11 @@ FORTRESS = [
     # iterative deepening runs through dozens of iterations per second here
     "k1b5/1p1p4/1P1P4/8/7p/1p1p4/1P1P3P/K1B5 w - - 0 1",
     "k1b5/1p1p4/1P1P4/8/7p/1p1p4/1P1P3P/K1B5 b - - 0 1",
+    # fortresses with captures still available at the horizon: the deepest iterations end in quiescence capture
+    # sequences, so the position stack is used beyond the nominal depth
+    "5b1k/4p1p1/1p2P1P1/3P4/8/1p1p4/1P1P4/K1B5 b - - 0 1",
+    "5b1k/p3p1p1/4P1P1/4P3/8/1p1p4/1P1P4/K1B5 b - - 0 1",
+    "5b1k/4p1p1/4P1P1/8/3p3P/1p1p4/1P1P4/K1B5 w - - 0 1",
 ]
 
 
